@@ -113,3 +113,32 @@ Print Assumptions flate_reader_reset_same_stream_valid.
 Theorem flate_reader_reset_keeps_capacity_refuted : ~ fl_reset_as_newreader_statement.
 Proof. exact fl_reset_as_newreader_refuted. Qed.
 Print Assumptions flate_reader_reset_keeps_capacity_refuted.
+
+(* bzip2.Reader.Reset at implementation level (Bzip2/Impl.v, WBZIMPL): from ANY state with its six
+   Decoder objects - which every reachable state has - the Reader after Reset refines libbzip2
+   exactly as a new one does, for every input, source script and Read schedule *)
+From V Require Bzip2.Impl Bzip2.ImplThms Bzip2.ImplReset.
+Module BzReset.
+Import Bzip2.Common Bzip2.SpecR Bzip2.Impl Bzip2.ImplThms Bzip2.ImplReset.
+Theorem bzip2_reader_reset_refines_libbzip2 :
+  forall (st0 : bzst) (data : list byte) (buffered : bool) (fills reads : list nat) (sched : list nat)
+         (obs : list bzobs) (fin : bzst) (pre : list bzobs) (o : bzobs) (e : err),
+    length (z_trees st0) = 6%nat ->
+    (forall b, In b data -> b < 256) ->
+    bz_run (bz_reset st0 data buffered fills reads) sched = (obs, fin) ->
+    obs = pre ++ [o] -> bo_err o = Some e ->
+    let spec := bzip2_decode data in
+    e <> EPanic /\ e <> EFuel /\
+    match bz_err spec with
+    | None => e = EEOF /\ obs_out obs = bz_out spec /\ bo_inOff o = Z.of_N (bz_used spec)
+    | Some es => e <> EEOF /\ prefix_of (obs_out obs) (bz_out spec) /\
+                 ((e = es /\ obs_out obs = bz_out spec) \/ e = EUEOF)
+    end.
+Proof. exact bzip2_reset_refines_libbzip2. Qed.
+Print Assumptions bzip2_reader_reset_refines_libbzip2.
+
+Theorem bzip2_reader_reachable_has_six_decoders : forall st,
+  reachable st -> length (z_trees st) = 6%nat.
+Proof. exact reachable_six. Qed.
+Print Assumptions bzip2_reader_reachable_has_six_decoders.
+End BzReset.
